@@ -53,12 +53,21 @@ func TestVerifC09Thresholds(t *testing.T) {
 			}
 			params := vFastParams()
 			params.D, params.Dlo, params.Dhi, params.Dscore, params.Dout = 8, 6, 16, 4, 2
+			if c.Chance(0.4) {
+				// small degrees: the mesh is at Dhi when the probes arrive, so a GRAFT is refused for more than one reason at once
+				params.D, params.Dlo, params.Dhi, params.Dscore, params.Dout = 4, 3, 5, 2, 1
+				// (the next heartbeat would cut a full mesh back to D: it is kept five seconds away so that the probes find it full)
+				params.HeartbeatInterval = 5 * time.Second
+			}
 			params.Dlazy, params.GossipFactor = 32, 1
 			params.HistoryLength, params.HistoryGossip = 200, 3
 			params.PruneBackoff, params.UnsubscribeBackoff = 30*time.Second, 10*time.Second
 			params.FanoutTTL = time.Minute
 			params.MaxIHaveMessages = 100
 			nP := c.Range(4, 10)
+			if params.Dhi == 5 {
+				nP = c.Range(10, 14) // enough well-scored peers to fill the mesh
+			}
 			w := gsNewWorld(c, gsConfig{params: params, th: th, scoring: true, nPups: nP, floodSub: 0,
 				opts: []Option{WithPeerExchange(true), WithMessageIdFn(func(m *pb.Message) string { return string(m.Data) })}})
 			if w == nil {
@@ -114,6 +123,19 @@ func TestVerifC09Thresholds(t *testing.T) {
 			// a cached message for the IWANT probes
 			w.handle("t").Publish(context.Background(), []byte("cached-0"))
 			w.r.ToNextGap(50 * time.Millisecond) // one heartbeat: mesh built, negative peers stay out
+			if params.Dhi == 5 && c.Chance(0.7) {
+				// fill the mesh up to Dhi with well-scored peers before the probes
+				for _, gp := range pups {
+					if len(nd.Snap().Mesh["t"]) >= params.Dhi {
+						break
+					}
+					if w.app.Get(gp.p.ID()) >= 0 && !gp.direct {
+						w.send(gp, vGraftRPC("t"))
+						vSettle(5 * time.Millisecond)
+					}
+				}
+				w.note("mesh filled to %d", len(nd.Snap().Mesh["t"]))
+			}
 			classes := map[string]int{}
 			sc := func(gp *gsPup) float64 { return w.app.Get(gp.p.ID()) }
 			accept := func(gp *gsPup) bool { return gp.direct || sc(gp) >= grayTh }
@@ -251,6 +273,22 @@ func TestVerifC09Thresholds(t *testing.T) {
 					}
 					classes["iwant/"+side(sc(gp), gossipTh)]++
 				case "graft":
+					if params.Dhi == 5 && sc(gp) < 0 && c.Chance(0.8) {
+						// make sure the mesh is full when a negatively scored peer knocks (earlier PRUNE probes may have thinned it)
+						for _, q := range pups {
+							s0 := nd.Snap()
+							if len(s0.Mesh["t"]) >= params.Dhi {
+								break
+							}
+							_, in := s0.Mesh["t"][q.p.ID()]
+							_, bo := s0.Backoff["t"][q.p.ID()]
+							if q != gp && !in && !bo && sc(q) >= 0 && !q.direct {
+								w.send(q, vGraftRPC("t"))
+								vSettle(5 * time.Millisecond)
+							}
+						}
+						mark = gp.p.WireLen()
+					}
 					before := nd.Snap()
 					w.send(gp, vGraftRPC("t"))
 					vSettle(20 * time.Millisecond)
@@ -289,9 +327,16 @@ func TestVerifC09Thresholds(t *testing.T) {
 							}
 						}
 						classes["graft/negative"]++
+						if len(before.Mesh["t"]) >= params.Dhi {
+							classes["graft/negative/mesh_full"]++
+							if !before.Outbound[gp.p.ID()] && gp.proto != GossipSubID_v10 {
+								classes["graft/negative/mesh_full_inbound_px_capable"]++
+							}
+						}
 					default:
 						if !is {
-							if _, bo := before.Backoff["t"][gp.p.ID()]; !bo {
+							// (a mesh that already holds Dhi peers refuses inbound-connected peers whatever their score)
+							if _, bo := before.Backoff["t"][gp.p.ID()]; !bo && (len(before.Mesh["t"]) < params.Dhi || before.Outbound[gp.p.ID()]) {
 								fail(map[string]string{"kind": "graft_refused"}, gp, "GRAFT from a peer with score >= 0 and no backoff was not admitted (mesh size %d)", len(before.Mesh["t"]))
 							}
 						}
